@@ -153,109 +153,57 @@ let show_pos g rs (p : pos) =
   let s = int_of_n (offset_of rs p) in
   Printf.sprintf "%s%s@%d..%d" (if is_node_at g p then "n" else "t") path s (s + int_of_n (len_at g p))
 
-let rec take_until f = function [] -> [] | x :: r -> if f x then [x] else x :: take_until f r
-
-let nav_step g (regs : pos option list) rs (op : string) : string * pos option * rstate =
+let parse_nop (op : string) : nop option =
   let parts = Array.of_list (String.split_on_char ':' op) in
-  let name = parts.(0) in
-  let reg i = if i < Array.length parts then (match int_of_string_opt parts.(i) with
-      | Some r -> (match List.nth_opt regs r with Some x -> x | None -> None) | None -> None) else None in
-  match reg 1 with
+  let nat i = nat_of_int (int_of_string parts.(i)) in
+  let r () = nat 1 in
+  try Some (match parts.(0) with
+    | "par" -> NPar (r ())
+    | "fc" -> NFirstChild (true, r ()) | "fct" -> NFirstChild (false, r ())
+    | "lc" -> NLastChild (true, r ()) | "lct" -> NLastChild (false, r ())
+    | "ns" -> NNextSib (true, r ()) | "nst" -> NNextSib (false, r ())
+    | "ps" -> NPrevSib (true, r ()) | "pst" -> NPrevSib (false, r ())
+    | "ft" -> NFirstTok (r ()) | "lt" -> NLastTok (r ())
+    | "nt" -> NNextTok (r ()) | "pt" -> NPrevTok (r ())
+    | "ch" -> NChildNth (true, r (), nat 2) | "cht" -> NChildNth (false, r (), nat 2)
+    | "nca" -> NChildAfter (true, r (), nat 2) | "ncta" -> NChildAfter (false, r (), nat 2)
+    | "pcb" -> NChildBefore (true, r (), nat 2) | "pctb" -> NChildBefore (false, r (), nat 2)
+    | "tao" -> NTao (r (), n_of_int (int_of_string parts.(2)))
+    | "cov" -> NCov (r (), n_of_int (int_of_string parts.(2)), n_of_int (int_of_string parts.(3)))
+    | "anc" -> NAnc (r ())
+    | "sib+" -> NSibs (true, true, r ()) | "sib-" -> NSibs (true, false, r ())
+    | "sibt+" -> NSibs (false, true, r ()) | "sibt-" -> NSibs (false, false, r ())
+    | "chs" -> NChildren (true, r ()) | "chts" -> NChildren (false, r ())
+    | "desc" -> NDesc (true, r ()) | "desct" -> NDesc (false, r ())
+    | "pre" -> NPre (true, r ()) | "pret" -> NPre (false, r ())
+    | "sz" -> NSizes (true, r ()) | "szt" -> NSizes (false, r ())
+    | "ar" -> NArity (r ())
+    | _ -> raise Not_found)
+  with _ -> None
+
+let show_nres g rs = function
+  | ROne (Some q) -> show_pos g rs q
+  | ROne None | RSkip -> "-"
+  | RList l -> "[" ^ String.concat "," (List.map (show_pos g rs) l) ^ "]"
+  | REvs l -> "[" ^ String.concat "," (List.map (function Enter q -> "+" ^ show_pos g rs q | Leave q -> "-" ^ show_pos g rs q) l) ^ "]"
+  | RTao (Panic q) -> "PANIC:" ^ panic_code q
+  | RTao (Ok TNone) -> "none"
+  | RTao (Ok (TSingle t)) -> "single " ^ show_pos g rs t
+  | RTao (Ok (TBetween (l, r))) -> "between " ^ show_pos g rs l ^ " " ^ show_pos g rs r
+  | RCov (Panic q) -> "PANIC:" ^ panic_code q
+  | RCov (Ok e) -> show_pos g rs e
+  | RSizes (l0, n0, l1, n1) ->
+    let f l n = let l = int_of_nat l in Printf.sprintf "len=%d,cnt=%d,hint=%d-%d,n=%d" l l l l (int_of_nat n) in
+    f l0 n0 ^ "|" ^ f l1 n1
+  | RArity (a, b) -> Printf.sprintf "%d,%d" (int_of_nat a) (int_of_nat b)
+
+(* one operation of the Coq register machine (Nav.nav_exec); unknown op names leave an empty register *)
+let nav_step g (regs : pos option list) rs (op : string) : string * pos option * rstate =
+  match parse_nop op with
   | None -> ("-", None, rs)
-  | Some p ->
-    let node = is_node_at g p in
-    let one (r, rs') = match r with Some q -> (show_pos g rs' q, Some q, rs') | None -> ("-", None, rs') in
-    let lst (l, rs') = ("[" ^ String.concat "," (List.map (show_pos g rs') l) ^ "]", None, rs') in
-    let argn i = int_of_string parts.(i) in
-    let sizes lenf collectf it rs0 =
-      let n = lenf it in
-      let (l, _) = collectf it rs0 in
-      Printf.sprintf "len=%d,cnt=%d,hint=%d-%d,n=%d" n n n n (List.length l) in
-    if node then
-      (match name with
-       | "par" -> one (parent_of p, rs)
-       | "fc" -> one (first_child_gen g true rs p)
-       | "fct" -> one (first_child_gen g false rs p)
-       | "lc" -> one (last_child_gen g true rs p)
-       | "lct" -> one (last_child_gen g false rs p)
-       | "ns" -> one (next_sibling_gen g true rs p)
-       | "nst" -> one (next_sibling_gen g false rs p)
-       | "ps" -> one (prev_sibling_gen g true rs p)
-       | "pst" -> one (prev_sibling_gen g false rs p)
-       | "ft" -> one (first_token g !tokens_skip_empty rs p)
-       | "lt" -> one (last_token g !tokens_skip_empty rs p)
-       | "ch" | "cht" ->
-         let k = argn 2 in
-         let next = if name = "ch" then node_iter_next else elem_iter_next in
-         let rec go i rs it =
-           let ((r, rs'), it') = next rs it in
-           match r with
-           | None -> (None, rs')
-           | Some q -> if i = k then (Some q, rs') else go (i + 1) rs' it' in
-         one (go 0 rs (iter_new g rs p))
-       | "nca" | "ncta" | "pcb" | "pctb" ->
-         (match reg 2 with
-          | Some (i :: q) when q = p ->
-            let c = i :: q in
-            (match name with
-             | "nca" -> one (next_child_after_gen g true rs p i (end_of g rs c))
-             | "ncta" -> one (next_child_after_gen g false rs p i (end_of g rs c))
-             | "pcb" -> one (prev_child_before_gen g true rs p i (start_of rs c))
-             | _ -> one (prev_child_before_gen g false rs p i (start_of rs c)))
-          | _ -> ("-", None, rs))
-       | "tao" ->
-         (match token_at_offset g rs p (n_of_int (argn 2)) with
-          | (Panic q, rs') -> ("PANIC:" ^ panic_code q, None, rs')
-          | (Ok TNone, rs') -> ("none", None, rs')
-          | (Ok (TSingle t), rs') -> ("single " ^ show_pos g rs' t, Some t, rs')
-          | (Ok (TBetween (l, r)), rs') -> ("between " ^ show_pos g rs' l ^ " " ^ show_pos g rs' r, Some r, rs'))
-       | "cov" ->
-         (match covering_element g rs p (n_of_int (argn 2)) (n_of_int (argn 3)) with
-          | (Panic q, rs') -> ("PANIC:" ^ panic_code q, None, rs')
-          | (Ok e, rs') -> (show_pos g rs' e, Some e, rs'))
-       | "anc" -> lst (ancestors g p, rs)
-       | "sib+" -> lst (siblings g true true rs p)
-       | "sib-" -> lst (siblings g true false rs p)
-       | "sibt+" -> lst (siblings g false true rs p)
-       | "sibt-" -> lst (siblings g false false rs p)
-       | "chs" -> lst (children_nodes g rs p)
-       | "chts" -> lst (children_elems g rs p)
-       | "desc" -> lst (descendants g true rs p)
-       | "desct" -> lst (descendants g false rs p)
-       | "pre" | "pret" ->
-         let (l, rs') = preorder g (name = "pre") rs p in
-         ("[" ^ String.concat "," (List.map (function Enter q -> "+" ^ show_pos g rs' q | Leave q -> "-" ^ show_pos g rs' q) l) ^ "]", None, rs')
-       | "sz" | "szt" ->
-         let nodes = (name = "sz") in
-         let lenf it = int_of_nat (if nodes then node_iter_len !len_counts_nodes it else elem_iter_len it) in
-         let collectf it rs0 =
-           let next = if nodes then node_iter_next else elem_iter_next in
-           let rec go acc rs it = let ((r, rs'), it') = next rs it in
-             match r with None -> (List.rev acc, rs') | Some q -> go (q :: acc) rs' it' in
-           go [] rs0 it in
-         let it0 = iter_new g rs p in
-         let a = sizes lenf collectf it0 rs in
-         let ((_, rs1), it1) = (if nodes then node_iter_next else elem_iter_next) rs it0 in
-         let b = sizes lenf collectf it1 rs1 in
-         (* the clones used for counting materialise the remaining children as well *)
-         let (_, rs2) = collectf it0 rs in
-         (a ^ "|" ^ b, None, rs2)
-       | "ar" ->
-         let cs = kids g p in
-         (Printf.sprintf "%d,%d" (List.length (List.filter is_node cs)) (List.length cs), None, rs)
-       | _ -> ("-", None, rs))
-    else
-      (match name with
-       | "par" -> one (parent_of p, rs)
-       | "nst" -> one (next_sibling_gen g false rs p)
-       | "pst" -> one (prev_sibling_gen g false rs p)
-       | "nt" -> one (next_token g !tokens_skip_empty rs p)
-       | "pt" -> one (prev_token g !tokens_skip_empty rs p)
-       | "ft" | "lt" -> one (Some p, rs)
-       | "anc" -> lst (ancestors g p, rs)
-       | "sibt+" -> lst (siblings g false true rs p)
-       | "sibt-" -> lst (siblings g false false rs p)
-       | _ -> ("-", None, rs))
+  | Some o ->
+    let ((res, nr), rs') = nav_exec g !len_counts_nodes !tokens_skip_empty regs rs o in
+    (show_nres g rs' res, nr, rs')
 
 let build_green toks =
   let ops = List.map parse_op toks in
